@@ -4,27 +4,38 @@
 (* (commands outer, files inner); replace modes NOTHING / NEW / OVERWRITE.  *)
 (* Anchors: libvore/engine/engine.go RunFiles, search.go searchReplace,     *)
 (* files/writer.go.                                                         *)
-(* Case: [id, defs, trans, cmds, files : <<[name, bytes]>>,                 *)
-(*        order : <<name>> (the files searched), mode]                      *)
+(* Case: [id, defs, trans, cmds, files : <<[name, bytes]>> or <<[d, name,    *)
+(* bytes]>> for files inside a directory, dirs : <<[d, names]>> (listing     *)
+(* order), order : <<argument>> (a file name or a directory name), mode]     *)
 EXTENDS Replace, Json, SequencesExt
 
 CONSTANT CaseFile
 Cases == ndJsonDeserialize(CaseFile)
 
 VARIABLES ci,      \* case index
-          k,       \* number of (command, file) steps done
-          fs,      \* the file system
+          k,       \* index of the command being run (1-based; Len+1 = finished)
+          a,       \* index of the next argument of RunFiles to expand for this command
+          pend,    \* files of the current argument still to be searched (a directory argument expands to its entries NOW)
+          fs,      \* the file system: file id -> bytes; id = [d : directory ("" = the working directory), n : name]
+          dl,      \* directory listings: directory -> names in os.ReadDir order
           acc      \* matches returned so far (RunFiles concatenates them)
-fvars == <<ci, k, fs, acc>>
+fvars == <<ci, k, a, pend, fs, dl, acc>>
 
 C == Cases[ci]
 HasFld(r, f) == f \in DOMAIN r
-NSteps(c) == Len(c.cmds) * Len(c.order)
-CmdAt(c, j)  == c.cmds[((j - 1) \div Len(c.order)) + 1]
-FileAt(c, j) == c.order[((j - 1) % Len(c.order)) + 1]
+Id(d, n) == [d |-> d, n |-> n]
+FileIdOf(f) == Id(IF HasFld(f, "d") THEN f.d ELSE "", f.name)
+VoredId(id) == [id EXCEPT !.n = @ \o ".vored"]
 
-FS0(c) == [n \in {c.files[j].name : j \in 1..Len(c.files)} |->
-             (LET j == CHOOSE j \in 1..Len(c.files) : c.files[j].name = n IN c.files[j].bytes)]
+FS0(c) == [id \in {FileIdOf(c.files[j]) : j \in 1..Len(c.files)} |->
+             (LET j == CHOOSE j \in 1..Len(c.files) : FileIdOf(c.files[j]) = id IN c.files[j].bytes)]
+DirsOf(c) == IF HasFld(c, "dirs") THEN c.dirs ELSE <<>>
+DL0(c) == [d \in {DirsOf(c)[j].d : j \in 1..Len(DirsOf(c))} |->
+             (LET j == CHOOSE j \in 1..Len(DirsOf(c)) : DirsOf(c)[j].d = d IN DirsOf(c)[j].names)]
+
+(* an argument is a file of the working directory (a string) or a directory  *)
+IsDirArg(x) == x \in {DirsOf(C)[j].d : j \in 1..Len(DirsOf(C))}
+ExpandArgNow(x) == IF IsDirArg(x) THEN [j \in 1..Len(dl[x]) |-> Id(x, dl[x][j])] ELSE <<Id("", x)>>
 
 TransOf(c) ==
   LET tr == IF HasFld(c, "trans") THEN c.trans ELSE <<>>
@@ -42,52 +53,83 @@ MatchesOn(c, cmd, t) ==
 
 Init ==
   /\ ci \in 1..Len(Cases)
-  /\ k = 0
-  /\ fs = FS0(Cases[ci])
+  /\ k = 1 /\ a = 1 /\ pend = <<>>
+  /\ fs = FS0(Cases[ci]) /\ dl = DL0(Cases[ci])
   /\ acc = <<>>
+
+Running == k <= Len(C.cmds)
+
+(* the next argument of this command is expanded when its turn comes        *)
+ExpandArg ==
+  /\ Running /\ pend = <<>> /\ a <= Len(C.order)
+  /\ pend' = ExpandArgNow(C.order[a])
+  /\ a' = a + 1
+  /\ UNCHANGED <<ci, k, fs, dl, acc>>
+
+(* all arguments done: next command                                          *)
+NextCommand ==
+  /\ Running /\ pend = <<>> /\ a > Len(C.order)
+  /\ k' = k + 1 /\ a' = 1
+  /\ UNCHANGED <<ci, pend, fs, dl, acc>>
 
 (* a find command never modifies any file                                   *)
 RunFind ==
-  /\ k < NSteps(C)
-  /\ CmdAt(C, k + 1).kind = "find"
-  /\ LET f == FileAt(C, k + 1) IN
-       /\ fs' = RunFindFS(fs, f)
-       /\ acc' = acc \o MatchesOn(C, CmdAt(C, k + 1), fs[f])
-  /\ k' = k + 1
-  /\ UNCHANGED ci
+  /\ Running /\ pend # <<>>
+  /\ C.cmds[k].kind = "find"
+  /\ acc' = acc \o MatchesOn(C, C.cmds[k], fs[pend[1]])
+  /\ pend' = Tail(pend)
+  /\ UNCHANGED <<ci, k, a, fs, dl>>
+
+(* a name created next to n in a listed directory sorts right after n       *)
+RECURSIVE InsertAfter(_, _, _)
+InsertAfter(names, n, new) ==
+  IF names = <<>> THEN <<new>>
+  ELSE IF names[1] = new THEN names
+  ELSE IF names[1] = n THEN (IF Len(names) > 1 /\ names[2] = new THEN names ELSE <<n, new>> \o Tail(names))
+  ELSE <<names[1]>> \o InsertAfter(Tail(names), n, new)
 
 RunReplace(mode) ==
-  /\ k < NSteps(C)
-  /\ CmdAt(C, k + 1).kind = "replace"
+  /\ Running /\ pend # <<>>
+  /\ C.cmds[k].kind = "replace"
   /\ C.mode = mode
-  /\ LET f  == FileAt(C, k + 1)
-         ms == MatchesOn(C, CmdAt(C, k + 1), fs[f])
-     IN /\ fs' = RunReplaceFS(fs, f, mode, Splice(fs[f], ms))
+  /\ LET f  == pend[1]
+         ms == MatchesOn(C, C.cmds[k], fs[f])
+         sp == Splice(fs[f], ms)
+     IN /\ fs' = CASE mode = "NOTHING" -> fs
+                    [] mode = "NEW" -> [g \in DOMAIN fs \cup {VoredId(f)} |-> IF g = VoredId(f) THEN sp ELSE fs[g]]
+                    [] mode = "OVERWRITE" -> [fs EXCEPT ![f] = sp]
+        /\ dl' = IF mode = "NEW" /\ f.d \in DOMAIN dl THEN [dl EXCEPT ![f.d] = InsertAfter(@, f.n, f.n \o ".vored")] ELSE dl
         /\ acc' = acc \o ms
-  /\ k' = k + 1
-  /\ UNCHANGED ci
+  /\ pend' = Tail(pend)
+  /\ UNCHANGED <<ci, k, a>>
 
 RunReplaceNothing   == RunReplace("NOTHING")
 RunReplaceNew       == RunReplace("NEW")
 RunReplaceOverwrite == RunReplace("OVERWRITE")
 
-Next == RunFind \/ RunReplaceNothing \/ RunReplaceNew \/ RunReplaceOverwrite
+Next == ExpandArg \/ NextCommand \/ RunFind \/ RunReplaceNothing \/ RunReplaceNew \/ RunReplaceOverwrite
 Spec == Init /\ [][Next]_fvars
 
 (* ------------------------------------------------------------- invariants *)
-Searched == {C.order[j] : j \in 1..Len(C.order)}
 OnlyFinds == \A j \in 1..Len(C.cmds) : C.cmds[j].kind = "find"
+(* ids a run may create: x.vored (and, for a listed directory searched again *)
+(* by a later command, x.vored.vored ...) of files it searched                *)
+RECURSIVE VoredClosure(_, _)
+VoredClosure(S, n) == IF n = 0 THEN S ELSE VoredClosure(S \cup {VoredId(x) : x \in S}, n - 1)
+Searchable ==
+  {Id("", C.order[j]) : j \in {j \in 1..Len(C.order) : ~IsDirArg(C.order[j])}}
+    \cup {id \in DOMAIN FS0(C) : IsDirArg(id.d) /\ \E j \in 1..Len(C.order) : C.order[j] = id.d}
 
 (* each mode touches only the file it may                                   *)
 OnlyAllowedFilesChange ==
   LET f0 == FS0(C) IN
   /\ (C.mode = "NOTHING" \/ OnlyFinds) => fs = f0
   /\ C.mode = "NEW" =>
-       /\ \A n \in DOMAIN f0 : (n \notin {Vored(f) : f \in Searched}) => (n \in DOMAIN fs /\ fs[n] = f0[n])
-       /\ DOMAIN fs \subseteq DOMAIN f0 \cup {Vored(f) : f \in Searched}
+       /\ \A id \in DOMAIN f0 : (id \notin VoredClosure({VoredId(x) : x \in Searchable}, Len(C.cmds))) => (id \in DOMAIN fs /\ fs[id] = f0[id])
+       /\ DOMAIN fs \subseteq DOMAIN f0 \cup VoredClosure({VoredId(x) : x \in Searchable}, Len(C.cmds))
   /\ C.mode = "OVERWRITE" =>
        /\ DOMAIN fs = DOMAIN f0
-       /\ \A n \in DOMAIN f0 : n \notin Searched => fs[n] = f0[n]
+       /\ \A id \in DOMAIN f0 : id \notin Searchable => fs[id] = f0[id]
 
 (* the splice: length arithmetic and preservation of unmatched bytes        *)
 RECURSIVE SumDelta(_, _)
@@ -101,19 +143,18 @@ StripRepl(out, ms, j, shift) ==      \* remove the replacements from the spliced
   ELSE LET at == ms[j].s + shift     \* position of replacement j in out
        IN StripRepl(Slice(out, 0, at) \o Slice(out, at + Len(ms[j].repl), Len(out)), ms, j + 1, shift - (ms[j].e - ms[j].s))
 SpliceLemma ==
-  k < NSteps(C) /\ CmdAt(C, k + 1).kind = "replace" =>
-    LET f  == FileAt(C, k + 1)
-        t  == fs[f]
-        ms == MatchesOn(C, CmdAt(C, k + 1), t)
+  (Running /\ pend # <<>> /\ C.cmds[k].kind = "replace") =>
+    LET t  == fs[pend[1]]
+        ms == MatchesOn(C, C.cmds[k], t)
         o  == Splice(t, ms)
     IN /\ Len(o) = Len(t) + SumDelta(ms, 1)
        /\ StripRepl(o, ms, 1, 0) = Unmatched(t, ms, 1, 0)
 
 (* emitted once per case, in its final state                                *)
 Emit ==
-  k = NSteps(C) =>
+  ~Running =>
     PrintT(ToJson([id |-> C.id,
                    fs |-> [j \in 1..Cardinality(DOMAIN fs) |->
-                             LET n == SetToSeq(DOMAIN fs)[j] IN [name |-> n, bytes |-> fs[n]]],
+                             LET x == SetToSeq(DOMAIN fs)[j] IN [d |-> x.d, name |-> x.n, bytes |-> fs[x]]],
                    ms |-> acc]))
 =============================================================================
